@@ -300,6 +300,7 @@ func (o *oracles) afterStep() {
 			} else if !seen {
 				o.leaderOfTerm[st.Term] = st.ReplicaID
 				s.ctx.Count("probe.leader_elected", 1)
+				o.checkElectionQuorum(h, st)
 			}
 		}
 		// the commit index a replica holds in memory is a fact about the shard
@@ -441,6 +442,45 @@ func (o *oracles) observeMembership(h *Host, st raft.VerifState) {
 		}
 	}
 	o.checkRole(h, st, v, r.Stopped())
+}
+
+// checkElectionQuorum (C03 "leader iff votes from a quorum of voting members",
+// C18 "election quorums are majorities of voting members plus witnesses"): when
+// a replica is first seen leading a term, the votes for it in that term that
+// have left the other voting members and witnesses (a superset of those that
+// reached it), plus its own, must be a majority of the voters and witnesses of
+// its own membership.
+func (o *oracles) checkElectionQuorum(h *Host, st raft.VerifState) {
+	s := o.s
+	kind := map[uint64]string{}
+	voting := 0
+	for _, rm := range st.Remotes {
+		kind[rm.ReplicaID] = rm.Kind
+		if rm.Kind != "nonvoting" {
+			voting++
+		}
+	}
+	if voting == 0 {
+		return
+	}
+	n := 1
+	var who []uint64
+	for i, lg := range o.ledgers {
+		x := s.hosts[i]
+		if x == h || lg == nil {
+			continue
+		}
+		k, member := kind[x.replicaID]
+		if cand, ok := lg.voteOf[st.Term]; ok && cand == st.ReplicaID && member && k != "nonvoting" {
+			n++
+			who = append(who, x.replicaID)
+		}
+	}
+	if n < voting/2+1 {
+		msg := fmt.Sprintf("replica %d leads term %d with %d of %d voting members (voters and witnesses) behind it - itself and %v - quorum is %d", st.ReplicaID, st.Term, n, voting, who, voting/2+1)
+		s.ctx.Violate("C18", "leader-without-quorum", "%s", msg)
+		s.ctx.Violate("C03", "leader-without-quorum", "%s", msg)
+	}
 }
 
 type roleRec struct {
